@@ -2,7 +2,7 @@
     nothing else.  Statements quoted by type from HistFacts.v, LifeFacts.v,
     MbFactsA.v (printed by [Check]). *)
 From MW Require Import Base Store Monad Usage Server Websocket Service Findings Inv Obs
-     ProtoFacts StepFacts MbFactsA LifeFacts HistFacts Corollaries Inst_Params.
+     ProtoFacts StepFacts MbFactsA LifeFacts HistFacts Corollaries CrashHist Inst_Params.
 Local Open Scope list_scope.
 
 (** after ANY history from the initial state without crash events (any number of
@@ -53,6 +53,45 @@ Theorem C01_no_orphans : ltac:(let t := type of crash_state_wf in exact t).
 Proof. exact crash_state_wf. Qed.
 Check C01_no_orphans.
 Print Assumptions C01_no_orphans.
+
+
+(** ** the same, for EVERY history -- crash events included (CrashHist.v)
+
+    [ledger_c] counts an add that was cut short by a crash exactly when the crash came
+    after the add's single commit ([ECrash (S k) (ECmd c add)]); a crash before it
+    ([ECrash 0 ...]) or during any other command adds nothing.  With that, the stored
+    messages of every mailbox after any history of commands, sweeps, restarts AND
+    crashes at any commit boundary are its ledger, and a served open replays exactly
+    the ledger *)
+Theorem C01_messages_evolution_all : ltac:(let t := type of messages_evolution_all in exact t).
+Proof. exact messages_evolution_all. Qed.
+Check C01_messages_evolution_all.
+Print Assumptions C01_messages_evolution_all.
+
+Theorem C01_stored_is_ledger_all : ltac:(let t := type of stored_is_ledger_all in exact t).
+Proof. exact stored_is_ledger_all. Qed.
+Check C01_stored_is_ledger_all.
+Print Assumptions C01_stored_is_ledger_all.
+
+Theorem C01_open_replays_ledger_all : ltac:(let t := type of open_replays_ledger_all in exact t).
+Proof. exact open_replays_ledger_all. Qed.
+Check C01_open_replays_ledger_all.
+Print Assumptions C01_open_replays_ledger_all.
+
+Theorem C01_ledger_reset_when_gone_all : ltac:(let t := type of ledger_reset_when_gone_all in exact t).
+Proof. exact ledger_reset_when_gone_all. Qed.
+Check C01_ledger_reset_when_gone_all.
+Print Assumptions C01_ledger_reset_when_gone_all.
+
+(** on histories without crash events the two ledgers coincide *)
+Theorem C01_ledger_c_no_crash : ltac:(let t := type of ledger_c_no_crash in exact t).
+Proof. exact ledger_c_no_crash. Qed.
+Print Assumptions C01_ledger_c_no_crash.
+
+(** a message whose add was committed before the crash survives it and is replayed;
+    one whose add crashed before its commit is lost *)
+Example C01_crash_nonvacuous : ltac:(let t := type of crash_ledger_nonvacuous in exact t).
+Proof. exact crash_ledger_nonvacuous. Qed.
 
 
 (** two messages survive the adder's disconnect, another mailbox's traffic and a
